@@ -20,9 +20,10 @@ import (
 
 // The two struct types of GoValues.tla.
 type Inner struct {
-	A float64
-	B string
-	C []string
+	A  float64
+	B  string
+	C  []string
+	Él string
 }
 type Outer struct {
 	A Inner
